@@ -140,10 +140,23 @@ func checkC09(c *hx.Checker) {
 				alpha = append(alpha, ref.EncF(dt, v))
 			}
 		} else if dt.IsInt() {
-			sp := ref.SpecialInts(dt)
-			alpha = append(alpha, sp...)
-			if len(alpha) > 6 {
-				alpha = alpha[:6]
+			// extremes and, for 64-bit types, neighbours that collapse when taken through float64
+			bits := uint(dt.Bits())
+			if dt.IsSigned() {
+				min := int64(-1) << (bits - 1)
+				for _, v := range []int64{min, -(min + 1), -(min + 1) - 1, 0, -1, 1} {
+					alpha = append(alpha, ref.EncI(dt, v))
+				}
+			} else {
+				max := uint64(1)<<bits - 1
+				if bits == 64 {
+					max = math.MaxUint64
+				}
+				alpha = append(alpha, 0, 1, max, max-1, max/2+1, 2)
+			}
+			if bits == 64 {
+				alpha = alpha[:4]
+				alpha = append(alpha, ref.EncI(dt, 1<<53), ref.EncI(dt, 1<<53+1), ref.EncI(dt, 1<<62+1), ref.EncI(dt, 1<<62))
 			}
 		} else {
 			continue
@@ -196,11 +209,11 @@ func checkC09(c *hx.Checker) {
 						}
 						jobs = append(jobs, newJob("ArgMax", []hx.Attr{hx.AInt("axis", int64(ax)), hx.AInt("keepdims", int64(kd))}, []*ref.T{data}, []*ref.T{exp}, err, hx.DCompute, hx.Bits, "op", nil, fmt.Sprintf("special tup=%v sh=%v kd=%d", tup, sh, kd), extra...))
 					}
-					if dt.IsFloat() && si < 2 {
-						// the same data through ReduceMax / ReduceMin (tuples without a +0/-0 pair: their max/min is not unique)
+					if si < 2 {
+						// the same data through ReduceMax / ReduceMin (float tuples without a +0/-0 pair: their max/min is not unique)
 						z := 0
 						for _, k := range tup {
-							if k == 4 || k == 5 {
+							if dt.IsFloat() && (k == 4 || k == 5) {
 								z++
 							}
 						}
